@@ -138,6 +138,42 @@ def join_filter_convergence(run):
     run.section("join_filter_convergence", cases=n)
 
 
+def determinism_over_time(run):
+    """optimize() of one query at different moments of a session (other queries planned in between, process-wide caches filled
+    and evicted) must give the same plan, and planning it twice in a row must give the same plan."""
+    import pandas as pd
+    import rt
+    from e2e import try_
+    pre = pd.DataFrame({"x": range(60), "w": range(60, 0, -1), "v": [i % 7 for i in range(60)]})
+    n = 0
+    def mk(i):
+        return rt.dx.from_pandas(pre.assign(k=[(j * (i + 3)) % 17 for j in range(len(pre))]), npartitions=3).set_index("k")
+    for first, second in (("asc", "desc"), ("desc", "asc")):
+        for col in ("x", "w", "v"):
+            df = rt.dx.from_pandas(pre, npartitions=4)
+            qs = {"asc": df.sort_values(col), "desc": df.sort_values(col, ascending=False), "set_index": df.set_index(col)}
+            names = {}
+            for moment in ("after the opposite sort", "again", "after 13 unrelated sorts", "after set_index on the same column"):
+                if moment == "after the opposite sort":
+                    try_(lambda: qs[first].optimize())
+                elif moment == "after 13 unrelated sorts":
+                    for i in range(13):
+                        try_(lambda: mk(i).optimize().divisions)
+                elif moment == "after set_index on the same column":
+                    try_(lambda: qs["set_index"].optimize())
+                o = try_(lambda: qs[second].optimize())
+                n += 1
+                run.count(("over-time", first, second, col, moment))
+                if o[0] == "raise":
+                    run.violation("optimize() of sort_values(%r, %s) fails %s: %s" % (col, second, moment, o[1]), {"kind": "over-time", "column": col, "moment": moment})
+                    continue
+                names[moment] = (o[1].expr._name, repr(tuple(o[1].divisions)))
+            if len(set(names.values())) > 1:
+                run.violation("optimize() of sort_values(%r, ascending=%s) depends on the moment in the session: %s" % (col, second == "asc", names),
+                              {"kind": "over-time", "column": col, "first": first, "second": second})
+    run.section("determinism_over_time", optimizations=n)
+
+
 def run(run):
     run.trusted = common.COMMON_TRUSTED + [
         "the drivers are modelled abstractly (Drivers.v) over an arbitrary pass function; that the real simplify_once / lower_once / _fusion_pass are deterministic functions of the plan is observed (names over repetitions, hash seeds, interpreters), not proved",
@@ -150,4 +186,5 @@ def run(run):
     progcheck.run_programs(run, {"C19"}, 150 if quick else 3000, profile="l2", own={"C19"}, with_steps=False)
     pass_counts(run, 150 if quick else 2000)
     join_filter_convergence(run)
+    determinism_over_time(run)
     hashseed_names(run, 40 if quick else 300)
